@@ -119,7 +119,7 @@ func VerifC18MerkleProof() {
 		proof.BlockHash = &bh
 	}
 
-	alt := pick("alteration", 7)
+	alt := pick("alteration", 8)
 	expectOK := false
 	switch alt {
 	case 0:
@@ -163,6 +163,18 @@ func VerifC18MerkleProof() {
 		var x bitcoin.Hash32
 		copy(x[:], nb)
 		proof.BlockHash = &x
+	case 7: // a fabricated header for a fabricated transaction, presented together with a known block hash
+		fake := txidOf(99, 0)
+		froot, fpath, fdups := refMerkle([]bitcoin.Hash32{fake, txidOf(99, 1)}, 0)
+		c := h.hdr[b].Copy()
+		c.MerkleRoot = froot
+		proof.TxID = &fake
+		proof.Index = 0
+		proof.Path = fpath
+		proof.DuplicatedIndexes = fdups
+		proof.BlockHeader = &c
+		bh := h.hash[b]
+		proof.BlockHash = &bh
 	case 6: // the proof of this block presented for another known block
 		other := 2
 		if withHeader {
